@@ -151,7 +151,17 @@ def rules(rep, db, inline):
     for fn, ps, key in each("reverse"):
         r = fn["params"][0]["name"]
         why = None
-        for p in ps:
+        ta0 = str((fn.get("targs") or ["?"])[0]).strip()
+        if ta0.endswith("&") and not ta0.endswith("&&"):
+            # an lvalue argument must not be reversed in place: the overload taken has to be the copying one
+            u = fn["_unit"]
+            calls = [c for c in F.walk(fn.get("body")) if c.get("k") == "call" and (u.decls.get(c.get("callee")) or {}).get("qn", "").startswith(A + "detail::reverse")]
+            d = u.decls.get(calls[0]["callee"]) if len(calls) == 1 else None
+            callee = db.resolve(u, d["id"]) if d else None
+            copies = [c for c in F.walk(callee.get("body")) if c.get("k") == "construct" and c.get("ctor") == "copy"] if callee else []
+            if d is None or (d.get("prefs") or ["?"])[0] != "clref" or not copies:
+                why = "an lvalue container is handed to the in-place overload: the caller's container is reversed instead of a copy"
+        for p in ([] if why else ps):
             ev = shown(p)
             out = sx.show(p.outcome[1])
             if len(ps) != 1 or len(ev) != 3 or not over_own_range(ev, r, "std::reverse", []):
@@ -258,10 +268,11 @@ def rules_strings(rep, db, inline):
                 evs = p.events
                 n = None
                 mask = {}
+                conds = []       # decisions the rule does not interpret: the path must still produce the documented result
                 for d, v in p.decisions:
                     if not (isinstance(d, tuple) and d and d[0] == "cmp" and d[1] in ("==", "!=")):
-                        why = "a decision that is neither an end test nor a delimiter test: %s" % sx.show(d)
-                        break
+                        conds.append("%s is %s" % (sx.show(d)[:60], v))
+                        continue
                     eq = v if d[1] == "==" else not v
                     a, b = _pos(d[2], evs, r), _pos(d[3], evs, r)
                     if "end" in (a, b) and isinstance(a if b == "end" else b, int):
@@ -274,8 +285,7 @@ def rules_strings(rep, db, inline):
                     if short == "split_string" and len(de) == 1 and len(ot) == 1 and sx.show(ot[0]) == dl and isinstance(_pos(_deref_of(de[0]), evs, r), int):
                         mask[_pos(_deref_of(de[0]), evs, r)] = eq
                         continue
-                    why = "a decision that is neither an end test nor a delimiter test: %s" % sx.show(d)
-                    break
+                    conds.append("%s is %s" % (sx.show(d)[:60], v))
                 if why:
                     break
                 if n is None:
@@ -302,7 +312,8 @@ def rules_strings(rep, db, inline):
                                 break
                             got.append((_pos(args[0], evs, r), _pos(args[1], evs, r)))
                     if not why and got != want:
-                        why = "for length %d with delimiters at %s the pieces are %s, expected %s" % (n, [k for k in range(n) if mask[k]], got, want)
+                        why = "for length %d with delimiters at %s%s the pieces are %s, expected %s" % (
+                            n, [k for k in range(n) if mask[k]], (" on the path where " + "; ".join(conds)) if conds else "", got, want)
                 else:
                     want = []
                     for k in range(n):
@@ -320,7 +331,7 @@ def rules_strings(rep, db, inline):
                             else:
                                 got.append(("other", sx.show(x)))
                     if got != want:
-                        why = "for %d elements the result is built from %s, expected %s" % (n, got, want)
+                        why = "for %d elements%s the result is built from %s, expected %s" % (n, (" on the path where " + "; ".join(conds)) if conds else "", got, want)
                 if why:
                     break
             if not why and complete < 3:
